@@ -915,9 +915,27 @@ def equation_substitution(rels):
         if pa is None or pb is None:
             unsolved += 1
             continue
+        def unroot(q):
+            # sqrt(F) as a whole term: the equation sqrt(F) == sqrt(G) is F == G
+            if len(q) == 1:
+                (mono, c), = q.items()
+                if c == 1 and len(mono) == 1 and mono[0][1] == Fraction(1, 2) and isinstance(mono[0][0], tuple) and mono[0][0][0] == "sum":
+                    return {m_: c_ for m_, c_ in mono[0][0][1]}
+            return None
+
+        ua, ub = unroot(pa), unroot(pb)
+        if ua is not None and ub is not None:
+            pa, pb = ua, ub
         d = p_add(pa, pb, -1)
         if not d:
             continue
+        if len(d) == 2:
+            # c * (x^2 - y^2) == 0 for two non-negative parameter atoms (sigmas): x == y
+            (m1, c1), (m2, c2) = sorted(d.items(), key=repr)
+            if c1 == -c2 and len(m1) == 1 and len(m2) == 1 and m1[0][1] == 2 and m2[0][1] == 2 and all(isinstance(m[0][0], tuple) and m[0][0][0] == "param" for m in (m1, m2)):
+                x_, y_ = sorted((m1[0][0], m2[0][0]), key=repr, reverse=True)
+                subst[x_] = y_
+                continue
         cand = None
         for mono, c in sorted(d.items(), key=repr, reverse=True):
             if len(mono) == 1 and mono[0][1] == 1 and isinstance(mono[0][0], tuple) and mono[0][0][0] == "param" and abs(c) == 1:
